@@ -53,7 +53,7 @@ THEOREMS = [
     'C16.identify_iff_pred',
 ]
 PARTIAL = {}
-GENERATED = ['MillerTables']
+GENERATED = ['MillerTables', 'MillerSource']
 
 SETTINGS = ['p', 'a', 'b', 'c', 'i', 'f', 't1', 't2']
 
@@ -163,7 +163,522 @@ def translate():
         body = ''.join(f'  if setting = "{key}" then some {pre}_{_ident(key)} else\n' for key in tables)
         parts.append(f'def {look} (setting : String) : Option (M3 K) :=\n{body}  none\n')
     parts.append('end Atomman.Gen\n')
-    return {'MillerTables': '\n'.join(parts)}
+    return {'MillerTables': '\n'.join(parts), 'MillerSource': _translate_source()}
+
+
+# ----------------------------------------------------------------------------------------
+# translator 2: the function BODIES of miller.py / Box.py / crystalsystem.py -> Generated/MillerSource.lean
+# (formulas and branch trees as Lean definitions proved equal to the model in Proofs/C16_Source.lean; sequencing of numpy
+# calls as normalised statement pins)
+# ----------------------------------------------------------------------------------------
+_FIELDS3 = ['x', 'y', 'z']
+_FIELDS4 = ['a', 'b', 'c', 'd']
+
+
+def _u(node):
+    return ast.unparse(node)
+
+
+def _is_ellipsis_index(sub, arrname):
+    """`arr[..., i]` -> i (int) or None"""
+    if isinstance(sub, ast.Subscript) and isinstance(sub.value, ast.Name) and sub.value.id == arrname \
+            and isinstance(sub.slice, ast.Tuple) and len(sub.slice.elts) == 2 \
+            and isinstance(sub.slice.elts[0], ast.Constant) and sub.slice.elts[0].value is Ellipsis \
+            and isinstance(sub.slice.elts[1], ast.Constant) and isinstance(sub.slice.elts[1].value, int):
+        return sub.slice.elts[1].value
+    return None
+
+
+def _conv_expr(node, invar, infields, outs, fname):
+    """arithmetic over indices[..., i] / newindices[..., j] / numeric literals -> Lean term over K"""
+    i = _is_ellipsis_index(node, 'indices')
+    if i is not None:
+        if not 0 <= i < len(infields):
+            raise TranslationError(f'{fname}: indices[..., {i}] out of range')
+        return f'{invar}.{infields[i]}'
+    j = _is_ellipsis_index(node, 'newindices')
+    if j is not None:
+        if j not in outs:
+            raise TranslationError(f'{fname}: newindices[..., {j}] read before it is assigned')
+        return outs[j]
+    if isinstance(node, ast.Constant) and isinstance(node.value, (int, float)) and not isinstance(node.value, bool):
+        return lit(Fraction(node.value))
+    if isinstance(node, ast.UnaryOp) and isinstance(node.op, ast.USub):
+        return f'(-{_conv_expr(node.operand, invar, infields, outs, fname)})'
+    if isinstance(node, ast.BinOp) and isinstance(node.op, (ast.Add, ast.Sub, ast.Mult, ast.Div)):
+        op = {ast.Add: '+', ast.Sub: '-', ast.Mult: '*', ast.Div: '/'}[type(node.op)]
+        return f'({_conv_expr(node.left, invar, infields, outs, fname)} {op} {_conv_expr(node.right, invar, infields, outs, fname)})'
+    raise TranslationError(f'{fname}: unsupported expression {_u(node)[:60]}')
+
+
+def _raises_value_error(st):
+    return isinstance(st, ast.Raise) and st.exc is not None and isinstance(st.exc, ast.Call) and _u(st.exc.func) == 'ValueError'
+
+
+def _tr_conv(src, fname, nin, nout, guard):
+    """one of plane3to4 / plane4to3 / vector3to4 / vector4to3 -> Lean definition text"""
+    fn = get_function(src, fname)
+    if [a.arg for a in fn.args.args] != ['indices'] or fn.args.defaults or fn.args.kwonlyargs:
+        raise TranslationError(f'{fname}: unexpected signature')
+    body = strip_doc(fn.body)
+    infields = _FIELDS3 if nin == 3 else _FIELDS4
+    invar = 'p' if nin == 3 else 'q'
+    want = ['indices = np.asarray(indices)']
+    pos = 0
+    if not (pos < len(body) and _u(body[pos]) == want[0]):
+        raise TranslationError(f'{fname}: first statement is not {want[0]}')
+    pos += 1
+    st = body[pos]
+    if not (isinstance(st, ast.If) and _u(st.test) == f'indices.shape[-1] != {nin}' and len(st.body) == 1
+            and _raises_value_error(st.body[0]) and not st.orelse):
+        raise TranslationError(f'{fname}: width check not found')
+    pos += 1
+    if guard:
+        st = body[pos]
+        if not (isinstance(st, ast.If) and _u(st.test) == 'not np.allclose(indices[..., :3].sum(axis=-1), 0.0)'
+                and len(st.body) == 1 and _raises_value_error(st.body[0]) and not st.orelse):
+            raise TranslationError(f'{fname}: sum guard not found / changed: {_u(st)[:80]}')
+        pos += 1
+    if _u(body[pos]) != f'newindices = np.empty(indices.shape[:-1] + ({nout},))':
+        raise TranslationError(f'{fname}: result allocation changed: {_u(body[pos])[:80]}')
+    pos += 1
+    outs = {}
+    while pos < len(body) - 1:
+        st = body[pos]
+        if not (isinstance(st, ast.Assign) and len(st.targets) == 1):
+            raise TranslationError(f'{fname}: unsupported statement {_u(st)[:70]}')
+        j = _is_ellipsis_index(st.targets[0], 'newindices')
+        if j is None or j in outs or not 0 <= j < nout:
+            raise TranslationError(f'{fname}: unsupported assignment {_u(st)[:70]}')
+        outs[j] = _conv_expr(st.value, invar, infields, outs, fname)
+        pos += 1
+    if sorted(outs) != list(range(nout)) or _u(body[-1]) != 'return newindices':
+        raise TranslationError(f'{fname}: not every result column assigned once / result is not newindices')
+    # strip one pair of outer parentheses for readability is not needed: Lean parses both
+    res = '⟨' + ', '.join(outs[j] for j in range(nout)) + '⟩'
+    lname = {'plane3to4': 'plane3to4', 'plane4to3': 'plane4to3', 'vector3to4': 'vector3to4', 'vector4to3': 'vector4to3'}[fname]
+    tin, tout = ('V3 K' if nin == 3 else 'V4 K'), ('V3 K' if nout == 3 else 'V4 K')
+    if guard:
+        s3 = f'{invar}.a + {invar}.b + {invar}.c'
+        return (f'/-- {fname} of miller.py: the guard `not np.allclose(indices[..., :3].sum(axis=-1), 0.0)` (numpy default '
+                f'tolerances; `atol` is numpy\'s), then the columns of `newindices`. -/\n'
+                f'def {lname} (atol : K) ({invar} : {tin}) : Except Err ({tout}) :=\n'
+                f'  if sumIsZero atol ({s3}) then .ok {res} else .error .value\n')
+    return (f'/-- {fname} of miller.py: the columns of `newindices`. -/\n'
+            f'def {lname} ({invar} : {tin}) : {tout} :=\n  {res}\n')
+
+
+_IDX = {0: 'h', 1: 'k', 2: 'l'}
+
+
+def _pl_index(node):
+    """indices[i] -> 'h' | 'k' | 'l'"""
+    if isinstance(node, ast.Subscript) and isinstance(node.value, ast.Name) and node.value.id == 'indices' \
+            and isinstance(node.slice, ast.Constant) and node.slice.value in _IDX:
+        return _IDX[node.slice.value]
+    return None
+
+
+def _pl_prod(node):
+    """product of indices -> Lean Int term"""
+    v = _pl_index(node)
+    if v:
+        return v
+    if isinstance(node, ast.BinOp) and isinstance(node.op, ast.Mult):
+        return f'{_pl_prod(node.left)} * {_pl_prod(node.right)}'
+    raise TranslationError(f'plane_cryst_2_cart: sign argument is not a product of indices: {_u(node)}')
+
+
+def _pl_m(node):
+    if isinstance(node, ast.Constant) and node.value == 1 and not isinstance(node.value, bool):
+        return '1'
+    if isinstance(node, ast.Call) and not node.keywords:
+        f = _u(node.func)
+        if f == 'np.lcm' and len(node.args) == 2:
+            a, b = (_pl_index(x) for x in node.args)
+            if a and b:
+                return f'((Int.lcm {a} {b} : Nat) : Int)'
+        if f == 'np.lcm.reduce' and len(node.args) == 1 and isinstance(node.args[0], ast.List) and len(node.args[0].elts) >= 2:
+            xs = [_pl_index(x) for x in node.args[0].elts]
+            if all(xs):
+                t = f'((Int.lcm {xs[0]} {xs[1]} : Nat) : Int)'
+                for x in xs[2:]:
+                    t = f'((Int.lcm {t} {x} : Nat) : Int)'
+                return t
+    raise TranslationError(f'plane_cryst_2_cart: m is not 1 / np.lcm(i, j) / np.lcm.reduce([...]): {_u(node)}')
+
+
+def _pl_entry(node):
+    """one entry of np.array([...], dtype=int): 0 | 1 | m / indices[i] | -m / indices[i] (true division, truncated)"""
+    if isinstance(node, ast.Constant) and node.value in (0, 1) and not isinstance(node.value, (bool, float)):
+        return str(node.value)
+    if isinstance(node, ast.BinOp) and isinstance(node.op, ast.Div):
+        d = _pl_index(node.right)
+        if d:
+            if isinstance(node.left, ast.Name) and node.left.id == 'm':
+                return f'Int.tdiv m {d}'
+            if isinstance(node.left, ast.UnaryOp) and isinstance(node.left.op, ast.USub) \
+                    and isinstance(node.left.operand, ast.Name) and node.left.operand.id == 'm':
+                return f'Int.tdiv (-m) {d}'
+    raise TranslationError(f'plane_cryst_2_cart: unsupported in-plane vector entry {_u(node)}')
+
+
+def _pl_vec(node):
+    if not (isinstance(node, ast.Call) and _u(node.func) == 'np.array' and len(node.args) == 1
+            and isinstance(node.args[0], ast.List) and len(node.args[0].elts) == 3
+            and len(node.keywords) == 1 and node.keywords[0].arg == 'dtype' and _u(node.keywords[0].value) == 'int'):
+        raise TranslationError(f'plane_cryst_2_cart: in-plane vector is not np.array([., ., .], dtype=int): {_u(node)[:70]}')
+    return '⟨' + ', '.join(_pl_entry(e) for e in node.args[0].elts) + '⟩'
+
+
+def _pl_leaf(stmts, ind):
+    if len(stmts) == 1 and _raises_value_error(stmts[0]):
+        return f'{ind}.error .value'
+    names = ['m', 's', 'a_uvw', 'b_uvw']
+    if len(stmts) != 4 or not all(isinstance(s, ast.Assign) and len(s.targets) == 1 and isinstance(s.targets[0], ast.Name)
+                                  and s.targets[0].id == n for s, n in zip(stmts, names)):
+        raise TranslationError('plane_cryst_2_cart: a branch does not assign exactly m, s, a_uvw, b_uvw: '
+                               + '; '.join(_u(s)[:40] for s in stmts))
+    m = _pl_m(stmts[0].value)
+    sv = stmts[1].value
+    if not (isinstance(sv, ast.Call) and _u(sv.func) == 'np.sign' and len(sv.args) == 1 and not sv.keywords):
+        raise TranslationError(f'plane_cryst_2_cart: s is not np.sign(...): {_u(sv)}')
+    s = f'Int.sign ({_pl_prod(sv.args[0])})'
+    a, b = _pl_vec(stmts[2].value), _pl_vec(stmts[3].value)
+    return (f'{ind}let m : Int := {m}\n{ind}let s : Int := {s}\n{ind}let _ := m\n{ind}.ok ({a}, {b}, s)')
+
+
+def _pl_tree(stmts, ind='  '):
+    """the if / elif / else tree on `indices[i] != 0`"""
+    if len(stmts) == 1 and isinstance(stmts[0], ast.If):
+        st = stmts[0]
+        t = st.test
+        if not (isinstance(t, ast.Compare) and len(t.ops) == 1 and isinstance(t.ops[0], ast.NotEq)
+                and isinstance(t.comparators[0], ast.Constant) and t.comparators[0].value == 0
+                and not isinstance(t.comparators[0].value, bool) and _pl_index(t.left)):
+            raise TranslationError(f'plane_cryst_2_cart: branch condition is not indices[i] != 0: {_u(t)}')
+        if not st.orelse:
+            raise TranslationError('plane_cryst_2_cart: a branch without else')
+        return (f'{ind}if {_pl_index(t.left)} ≠ 0 then\n{_pl_tree(st.body, ind + "  ")}\n{ind}else\n'
+                f'{_pl_tree(st.orelse, ind + "  ")}')
+    return _pl_leaf(stmts, ind)
+
+
+def _tr_plane_normal(src):
+    fn = get_function(src, 'plane_cryst_2_cart', inside='plane_crystal_to_cartesian')
+    if [a.arg for a in fn.args.args] != ['indices', 'box']:
+        raise TranslationError('plane_cryst_2_cart: unexpected signature')
+    body = strip_doc(fn.body)
+    if len(body) != 3 or not isinstance(body[0], ast.If):
+        raise TranslationError('plane_cryst_2_cart: body is not [branch tree, planenormal = ..., return ...]: '
+                               + ' | '.join(_u(s)[:60] for s in body[1:]))
+    tree = _pl_tree([body[0]])
+    # planenormal = s * np.cross(a_uvw.dot(box.vects), b_uvw.dot(box.vects))
+    st = body[1]
+
+    def dotv(node):
+        if isinstance(node, ast.Call) and isinstance(node.func, ast.Attribute) and node.func.attr == 'dot' \
+                and isinstance(node.func.value, ast.Name) and node.func.value.id in ('a_uvw', 'b_uvw') \
+                and len(node.args) == 1 and _u(node.args[0]) == 'box.vects' and not node.keywords:
+            return f'(M3.vecMul (castV {node.func.value.id[0]}) V)'
+        raise TranslationError(f'plane_cryst_2_cart: not <in-plane vector>.dot(box.vects): {_u(node)}')
+    ok = (isinstance(st, ast.Assign) and len(st.targets) == 1 and _u(st.targets[0]) == 'planenormal'
+          and isinstance(st.value, ast.BinOp) and isinstance(st.value.op, ast.Mult)
+          and isinstance(st.value.left, ast.Name) and st.value.left.id == 's'
+          and isinstance(st.value.right, ast.Call) and _u(st.value.right.func) == 'np.cross'
+          and len(st.value.right.args) == 2 and not st.value.right.keywords)
+    if not ok:
+        raise TranslationError(f'plane_cryst_2_cart: planenormal is not s * np.cross(., .): {_u(st)[:90]}')
+    cross = f'V3.cross {dotv(st.value.right.args[0])} {dotv(st.value.right.args[1])}'
+    if _u(body[2]) != 'return planenormal / np.linalg.norm(planenormal)':
+        raise TranslationError(f'plane_cryst_2_cart: result is not planenormal / np.linalg.norm(planenormal): {_u(body[2])[:90]}')
+    return (
+        '/-- the branch tree of `plane_cryst_2_cart` (inner function of plane_crystal_to_cartesian): conditions `indices[i] != 0`\n'
+        '    in source order; per branch `m` (np.lcm), `s` (np.sign of a product), and the entries of the two in-plane vectors\n'
+        '    (`np.array([...], dtype=int)` of true quotients: truncation). -/\n'
+        'def planeInPlane (h k l : Int) : Except Err (V3 Int × V3 Int × Int) :=\n' + tree + '\n\n'
+        '/-- `planenormal = s * np.cross(a_uvw.dot(box.vects), b_uvw.dot(box.vects))`. -/\n'
+        'def normalOf (V : M3 K) (a b : V3 Int) (s : Int) : V3 K :=\n'
+        f'  V3.smul (s : K) ({cross})\n\n'
+        '/-- the body of `plane_cryst_2_cart` up to the final division: branch tree, then `planenormal`. -/\n'
+        'def planeNormalUnnorm (V : M3 K) (h k l : Int) : Except Err (V3 K) :=\n'
+        '  match planeInPlane h k l with\n  | .ok (a, b, s) => .ok (normalOf V a b s)\n  | .error e => .error e\n\n'
+        '/-- `return planenormal / np.linalg.norm(planenormal)`: `norm` is numpy\'s. -/\n'
+        'def planeResult (norm : V3 K → K) (n : V3 K) : V3 K := normalise n (norm n)\n')
+
+
+def _pin(name, stmts, doc):
+    """normalised statement pin: the `ast.unparse` text of each statement (docstrings and messages of raise dropped)."""
+    out = []
+    for s in stmts:
+        out.append(_pin_text(s))
+    items = ',\n   '.join('"' + t.replace('\\', '\\\\').replace('"', '\\"') + '"' for t in out)
+    return f'/-- {doc} -/\ndef pin_{name} : List String :=\n  [{items}]\n'
+
+
+def _pin_text(s):
+    class Strip(ast.NodeTransformer):
+        def visit_Raise(self, node):
+            if node.exc is not None and isinstance(node.exc, ast.Call):
+                return ast.Raise(exc=ast.Call(func=node.exc.func, args=[], keywords=[]), cause=None)
+            return node
+
+        def visit_Assert(self, node):
+            return ast.Assert(test=node.test, msg=None)
+
+        def visit_FunctionDef(self, node):
+            return ast.Expr(value=ast.Name(id=f'<def {node.name}>', ctx=ast.Load()))
+    import copy
+    t = Strip().visit(copy.deepcopy(s))
+    ast.fix_missing_locations(t)
+    return ' '.join(ast.unparse(t).split())
+
+
+def _tr_pins(src):
+    parts = []
+    fn = get_function(src, 'plane_crystal_to_cartesian')
+    if [a.arg for a in fn.args.args] != ['indices', 'box'] or fn.args.defaults:
+        raise TranslationError('plane_crystal_to_cartesian: unexpected signature')
+    parts.append(_pin('plane_crystal_to_cartesian', strip_doc(fn.body),
+                      'plane_crystal_to_cartesian around the per-row function: asarray; 4 indices -> box.ishexagonal() (default '
+                      'tolerances) -> plane4to3 | ValueError; width check; integer test np.allclose(indices, int cast) -> cast | '
+                      'ValueError; apply_along_axis over the last axis'))
+    fn = get_function(src, 'vector_crystal_to_cartesian')
+    if [a.arg for a in fn.args.args] != ['indices', 'box'] or fn.args.defaults:
+        raise TranslationError('vector_crystal_to_cartesian: unexpected signature')
+    body = strip_doc(fn.body)
+    if _u(body[-1]) != 'return indices.dot(box.vects)':
+        raise TranslationError(f'vector_crystal_to_cartesian: result is not indices.dot(box.vects): {_u(body[-1])[:80]}')
+    parts.append(_pin('vector_crystal_to_cartesian', body,
+                      'vector_crystal_to_cartesian: np.array; 4 indices -> box.ishexagonal() -> vector4to3 | ValueError; width '
+                      'check; indices.dot(box.vects)'))
+    parts.append('/-- `return indices.dot(box.vects)` for one index set. -/\n'
+                 'def vectorResult (p : V3 K) (V : M3 K) : V3 K := M3.vecMul p V\n')
+    fn = get_function(src, 'all_indices')
+    args = [a.arg for a in fn.args.args]
+    dflt = [_u(d) for d in fn.args.defaults]
+    if args != ['maxindex', 'reduce'] or len(dflt) != 2 or not dflt[0].lstrip('-').isdigit() or dflt[1] not in ('True', 'False'):
+        raise TranslationError(f'all_indices: unexpected signature {args} {dflt}')
+    parts.append(f'/-- defaults of all_indices(maxindex, reduce). -/\ndef allIndicesDefaults : Int × Bool := ({dflt[0]}, {dflt[1].lower()})\n')
+    parts.append(_pin('all_indices', strip_doc(fn.body),
+                      'all_indices: arange(-maxindex, maxindex+1); meshgrid(i, i, i) (xy indexing) stacked as columns u, v, w; zero row '
+                      'removed by the sum of absolute values; with reduce: reduce_indices then np.unique(axis=0)'))
+    return parts
+
+
+def _tr_reduce(src):
+    fn = get_function(src, 'reduce_indices')
+    if [a.arg for a in fn.args.args] != ['indices'] or fn.args.defaults:
+        raise TranslationError('reduce_indices: unexpected signature')
+    body = strip_doc(fn.body)
+    if len(body) != 5 or _u(body[0]) != 'indices = np.asarray(indices)':
+        raise TranslationError('reduce_indices: body is not [asarray, width check, n = ..., red_indices = ..., return]')
+    st = body[1]
+    widths = []
+    if isinstance(st, ast.If) and isinstance(st.test, ast.BoolOp) and isinstance(st.test.op, ast.And) and len(st.body) == 1 \
+            and _raises_value_error(st.body[0]) and not st.orelse:
+        for c in st.test.values:
+            if isinstance(c, ast.Compare) and _u(c.left) == 'indices.shape[-1]' and len(c.ops) == 1 \
+                    and isinstance(c.ops[0], ast.NotEq) and isinstance(c.comparators[0], ast.Constant) \
+                    and isinstance(c.comparators[0].value, int):
+                widths.append(c.comparators[0].value)
+    if len(widths) < 1 or len(widths) != len(getattr(st.test, 'values', [])):
+        raise TranslationError(f'reduce_indices: width check is not `shape[-1] != a and shape[-1] != b`: {_u(st.test)[:80]}')
+    if _u(body[2]) != 'n = np.gcd.reduce(indices, axis=-1)':
+        raise TranslationError(f'reduce_indices: n is not np.gcd.reduce(indices, axis=-1): {_u(body[2])[:80]}')
+    st = body[3]
+    if not (isinstance(st, ast.Assign) and _u(st.targets[0]) == 'red_indices' and isinstance(st.value, ast.BinOp)
+            and _u(st.value.left) == 'indices' and _u(st.value.right) == 'np.asarray(n)[..., np.newaxis]'):
+        raise TranslationError(f'reduce_indices: unexpected quotient {_u(st)[:80]}')
+    op = {ast.FloorDiv: 'Int.fdiv', ast.Div: None}.get(type(st.value.op))
+    if op is None:
+        raise TranslationError(f'reduce_indices: the quotient is not a floor division: {_u(st)[:80]}')
+    if _u(body[4]) != 'return red_indices':
+        raise TranslationError('reduce_indices: result is not red_indices')
+    cond = ' ∨ '.join(f'l.length = {w}' for w in widths)
+    return ['/-- reduce_indices for one index set: width check, `n = np.gcd.reduce(indices, axis=-1)`, `indices // n`. -/\n'
+            'def reduceIndices (l : List Int) : Except Err (List Int) :=\n'
+            f'  if {cond} then\n    let n : Int := (gcdList l : Nat)\n    .ok (l.map (fun x => {op} x n))\n  else .error .value\n']
+
+
+def _tr_brackets(src):
+    fn = get_function(src, 'fromstring')
+    if [a.arg for a in fn.args.args] != ['value']:
+        raise TranslationError('fromstring: unexpected signature')
+    body = strip_doc(fn.body)
+    st = body[0]
+    pairs = []
+    while True:
+        if not isinstance(st, ast.If):
+            raise TranslationError('fromstring: bracket search is not an if / elif chain')
+        t = st.test
+        ok = (isinstance(t, ast.Compare) and len(t.ops) == 1 and isinstance(t.ops[0], ast.Gt) and _u(t.comparators[0]) == '-1'
+              and isinstance(t.left, ast.Call) and _u(t.left.func) == 'value.find' and len(t.left.args) == 1
+              and isinstance(t.left.args[0], ast.Constant) and isinstance(t.left.args[0].value, str) and len(t.left.args[0].value) == 1)
+        if not ok or len(st.body) != 2:
+            raise TranslationError(f'fromstring: unexpected bracket test {_u(t)[:60]}')
+        o = t.left.args[0].value
+        a1, a2 = st.body
+        if _u(a1) != f'openindex = value.index({o!r})':
+            raise TranslationError(f'fromstring: openindex is not value.index({o!r}): {_u(a1)}')
+        if not (isinstance(a2, ast.Assign) and _u(a2.targets[0]) == 'closeindex' and isinstance(a2.value, ast.Call)
+                and _u(a2.value.func) == 'value.index' and len(a2.value.args) == 1 and isinstance(a2.value.args[0], ast.Constant)
+                and isinstance(a2.value.args[0].value, str) and len(a2.value.args[0].value) == 1):
+            raise TranslationError(f'fromstring: closeindex is not value.index(<char>): {_u(a2)}')
+        pairs.append((o, a2.value.args[0].value))
+        if len(st.orelse) == 1 and isinstance(st.orelse[0], ast.If):
+            st = st.orelse[0]
+            continue
+        if len(st.orelse) != 1 or _u(st.orelse[0]) != 'openindex = -1':
+            raise TranslationError('fromstring: the chain does not end in openindex = -1')
+        break
+    items = ', '.join(f"('{o}', '{c}')" for o, c in pairs)
+    return [f'/-- fromstring: the bracket kinds looked for, in source order, each with the closing character searched. -/\n'
+            f'def bracketPairs : List (Char × Char) := [{items}]\n',
+            _pin('fromstring_rest', body[1:],
+                 'fromstring after the bracket search: leading fraction (`openindex > 0`, one `/`, float / float), legacy reader, '
+                 'np.fromstring(sep=\' \') of the bracket contents, 3 or 4 entries, fraction * array')]
+
+
+_PARAM = {'a': 'p.a', 'b': 'p.b', 'c': 'p.c', 'alpha': 'p.alpha', 'beta': 'p.beta', 'gamma': 'p.gamma'}
+_PREDS = [('iscubic', 'isCubic', 'cubic'), ('ishexagonal', 'isHexagonal', 'hexagonal'), ('istetragonal', 'isTetragonal', 'tetragonal'),
+          ('isrhombohedral', 'isRhombohedral', 'rhombohedral'), ('isorthorhombic', 'isOrthorhombic', 'orthorhombic'),
+          ('ismonoclinic', 'isMonoclinic', 'monoclinic'), ('istriclinic', 'isTriclinic', 'triclinic')]
+
+
+def _fam_defaults(fn, first):
+    args = [a.arg for a in fn.args.args]
+    if args != [first, 'rtol', 'atol'] or len(fn.args.defaults) != 2:
+        raise TranslationError(f'{fn.name}: unexpected signature {args}')
+    try:
+        return [Fraction(_u(d)) for d in fn.args.defaults]
+    except Exception:  # noqa
+        raise TranslationError(f'{fn.name}: default tolerances are not numeric literals')
+
+
+def _fam_term(node, obj, fname):
+    neg = False
+    if isinstance(node, ast.UnaryOp) and isinstance(node.op, ast.Not):
+        neg, node = True, node.operand
+    ok = (isinstance(node, ast.Call) and _u(node.func) == 'np.isclose' and len(node.args) == 2
+          and sorted((k.arg, _u(k.value)) for k in node.keywords) == [('atol', 'atol'), ('rtol', 'rtol')])
+    if not ok:
+        raise TranslationError(f'{fname}: a term is not [not] np.isclose(x, y, atol=atol, rtol=rtol): {_u(node)[:80]}')
+
+    def operand(x):
+        if isinstance(x, ast.Attribute) and isinstance(x.value, ast.Name) and x.value.id == obj and x.attr in _PARAM:
+            return _PARAM[x.attr]
+        if isinstance(x, ast.Constant) and isinstance(x.value, (int, float)) and not isinstance(x.value, bool):
+            return lit(Fraction(x.value))
+        raise TranslationError(f'{fname}: unsupported operand {_u(x)}')
+    t = f'isclose rtol atol {operand(node.args[0])} {operand(node.args[1])}'
+    return ('!' + t) if neg else t
+
+
+def _tr_family(src, obj, prefix, inside=None, warn=False):
+    """the seven predicates + identifyfamily of Box.py (methods, obj = 'self') / crystalsystem.py (functions, obj = 'box')"""
+    parts = []
+    tree = ast.parse(src)
+    if inside:
+        cls = [n for n in tree.body if isinstance(n, ast.ClassDef) and n.name == inside]
+        if len(cls) != 1:
+            raise TranslationError(f'class {inside} not found')
+        fns = {n.name: n for n in cls[0].body if isinstance(n, ast.FunctionDef)}
+    else:
+        fns = {n.name: n for n in tree.body if isinstance(n, ast.FunctionDef)}
+    defaults = []
+    for py, lean, _fam in _PREDS:
+        fn = fns.get(py)
+        if fn is None:
+            raise TranslationError(f'{prefix}: {py} not found')
+        defaults.append((py, _fam_defaults(fn, obj)))
+        body = strip_doc(fn.body)
+        if warn:
+            if not body or _u(body[0]) != 'warnings.warn(warnmsg, PendingDeprecationWarning)':
+                raise TranslationError(f'{prefix}.{py}: unexpected first statement')
+            body = body[1:]
+        if len(body) != 1 or not isinstance(body[0], ast.Return) or not isinstance(body[0].value, ast.BoolOp) \
+                or not isinstance(body[0].value.op, ast.And):
+            raise TranslationError(f'{prefix}.{py}: body is not `return (t1 and t2 and ...)`')
+        terms = [_fam_term(t, obj, f'{prefix}.{py}') for t in body[0].value.values]
+        parts.append(f'/-- {prefix}.{py}: the conjunction as coded. -/\ndef {prefix}_{lean} (rtol atol : K) (p : CellParams K) : Bool :=\n  '
+                     + ' && '.join(terms) + '\n')
+    fn = fns.get('identifyfamily')
+    if fn is None:
+        raise TranslationError(f'{prefix}: identifyfamily not found')
+    defaults.append(('identifyfamily', _fam_defaults(fn, obj)))
+    body = strip_doc(fn.body)
+    if warn:
+        if not body or _u(body[0]) != 'warnings.warn(warnmsg, PendingDeprecationWarning)':
+            raise TranslationError(f'{prefix}.identifyfamily: unexpected first statement')
+        body = body[1:]
+    if len(body) != 1 or not isinstance(body[0], ast.If):
+        raise TranslationError(f'{prefix}.identifyfamily: body is not one if / elif chain')
+    st = body[0]
+    chain = []
+    by_py = {py: (lean, fam) for py, lean, fam in _PREDS}
+    while True:
+        call = (f'self.{{}}(rtol=rtol, atol=atol)' if obj == 'self' else '{}(box, rtol=rtol, atol=atol)')
+        hit = [py for py in by_py if _u(st.test) == call.format(py)]
+        if len(hit) != 1 or len(st.body) != 1 or not isinstance(st.body[0], ast.Return) \
+                or not isinstance(st.body[0].value, ast.Constant) or not isinstance(st.body[0].value.value, str):
+            raise TranslationError(f'{prefix}.identifyfamily: unexpected branch {_u(st.test)[:70]}')
+        name = st.body[0].value.value
+        if name not in [f for _, _, f in _PREDS]:
+            raise TranslationError(f'{prefix}.identifyfamily: unknown family name {name!r}')
+        chain.append((by_py[hit[0]][0], name))
+        if len(st.orelse) == 1 and isinstance(st.orelse[0], ast.If):
+            st = st.orelse[0]
+            continue
+        if not (len(st.orelse) == 1 and _u(st.orelse[0]) in ('None', 'return None')) and st.orelse:
+            raise TranslationError(f'{prefix}.identifyfamily: the chain does not end in None')
+        break
+    lines = ''.join(f'  {"if" if i == 0 else "else if"} {prefix}_{lean} rtol atol p then some .{fam}\n' for i, (lean, fam) in enumerate(chain))
+    parts.append(f'/-- {prefix}.identifyfamily: the if / elif chain in source order, each predicate with the name it returns. -/\n'
+                 f'def {prefix}_identifyFamily (rtol atol : K) (p : CellParams K) : Option Family :=\n{lines}  else none\n')
+    if len({tuple(d) for _, d in defaults}) != 1:
+        raise TranslationError(f'{prefix}: the predicates do not share one pair of default tolerances: {defaults}')
+    r, a = defaults[0][1]
+    parts.append(f'/-- default `rtol`, `atol` of all eight signatures of {prefix}. -/\n'
+                 f'def {prefix}_defaultRtol : K := {lit(r)}\ndef {prefix}_defaultAtol : K := {lit(a)}\n')
+    return parts
+
+
+def _tr_box_entry(boxsrc):
+    parts = []
+    tree = ast.parse(boxsrc)
+    cls = [n for n in tree.body if isinstance(n, ast.ClassDef) and n.name == 'Box'][0]
+    fns = {n.name: n for n in cls.body if isinstance(n, ast.FunctionDef)}
+    for name in ('vector_crystal_to_cartesian', 'plane_crystal_to_cartesian'):
+        fn = fns.get(name)
+        if fn is None or [a.arg for a in fn.args.args] != ['self', 'indices']:
+            raise TranslationError(f'Box.{name}: not found / unexpected signature')
+        parts.append(_pin('Box_' + name, strip_doc(fn.body), f'Box.{name}: hands over to the function of miller.py with itself as the box'))
+    return parts
+
+
+def _translate_source():
+    src = cm.source('atomman/tools/miller.py')
+    boxsrc = cm.source('atomman/core/Box.py')
+    cssrc = cm.source('atomman/tools/crystalsystem.py')
+    parts = ['/- GENERATED by harness/props/c16.py from atomman/tools/miller.py, atomman/core/Box.py, atomman/tools/crystalsystem.py\n'
+             '   — do not edit.  Every definition is proved equal to the hand model in Proofs/C16_Source.lean. -/',
+             'import Atomman.C16', 'namespace Atomman.C16.Src',
+             'variable {K : Type} [Zero K] [Add K] [Sub K] [Mul K] [Div K] [Neg K] [NatCast K] [IntCast K] [LT K] [DecidableLT K] [LE K] [DecidableLE K]',
+             '']
+    parts.append(_tr_conv(src, 'plane3to4', 3, 4, False))
+    parts.append(_tr_conv(src, 'plane4to3', 4, 3, True))
+    parts.append(_tr_conv(src, 'vector3to4', 3, 4, False))
+    parts.append(_tr_conv(src, 'vector4to3', 4, 3, True))
+    parts.append(_tr_plane_normal(src))
+    parts += _tr_pins(src)
+    parts += _tr_reduce(src)
+    parts += _tr_brackets(src)
+    parts += _tr_family(boxsrc, 'self', 'box', inside='Box')
+    parts += _tr_family(cssrc, 'box', 'cs', warn=True)
+    parts += _tr_box_entry(boxsrc)
+    parts.append('end Atomman.C16.Src\n')
+    return '\n'.join(parts)
 
 
 # ----------------------------------------------------------------------------------------
@@ -319,16 +834,19 @@ def _tri_angles(rng):
             return al, be, ga
 
 
-def _family_cells(rng):
-    """one Box per crystal family from the family constructors, generic parameters -> [(family, args, box)]"""
+def _family_cells(rng, scale=1.0):
+    """one Box per crystal family from the family constructors, generic parameters (lengths times `scale`)
+    -> [(family, args, box)]"""
     import atomman as am
-    a, b, c = _generic_lengths(rng)
+    a, b, c = (x * scale for x in _generic_lengths(rng))
     out = []
     out.append(('cubic', (a,), am.Box.cubic(a)))
     hargs = _ctor_args(rng, 'hexagonal')[0]
+    hargs = (hargs[0] * scale, hargs[1] * scale)
     out.append(('hexagonal', hargs, am.Box.hexagonal(*hargs)))
     out.append(('tetragonal', (a, c), am.Box.tetragonal(a, c)))
     rargs = _ctor_args(rng, 'rhombohedral')[0]
+    rargs = (rargs[0] * scale, rargs[1])
     out.append(('rhombohedral', rargs, am.Box.trigonal(*rargs)))
     out.append(('orthorhombic', (a, b, c), am.Box.orthorhombic(a, b, c)))
     be = rng.uniform(92.0, 135.0)
@@ -359,12 +877,12 @@ def _dyadic_cell(rng):
         return am.Box(vects=v)
 
 
-def _float_cell(rng):
+def _float_cell(rng, scale=1.0):
     """random float triclinic cell (LAMMPS-normal form via a,b,c,angles), right-handed."""
     import atomman as am
     a, b, c = _generic_lengths(rng)
     al, be, ga = _tri_angles(rng)
-    return am.Box(a=a, b=b, c=c, alpha=al, beta=be, gamma=ga)
+    return am.Box(a=a * scale, b=b * scale, c=c * scale, alpha=al, beta=be, gamma=ga)
 
 
 # ---- rigidly moved cells, origins, object histories -------------------------------------------
@@ -403,10 +921,10 @@ def _move(vects, M):
     return (np.asarray(vects, dtype=float) @ np.array([[float(v) for v in r] for r in M])).tolist()
 
 
-def _gen_origin(rng):
+def _gen_origin(rng, scale=1.0):
     if rng.random() < 0.2:
         return [0.0, 0.0, 0.0]
-    return [cm.dyadic(rng, -8, 8, 2) for _ in range(3)]
+    return [cm.dyadic(rng, -8, 8, 2) * scale for _ in range(3)]
 
 
 def _ctor_args(rng, fam):
@@ -452,6 +970,35 @@ def _ctor_args(rng, fam):
     return (a, b, c, al, be, ga), dict(a=a, b=b, c=c, alpha=al, beta=be, gamma=ga)
 
 
+# the cell's overall LENGTH SCALE (the unit the lattice parameters are written in): exact powers of two and of ten from
+# ~1e-12 (metres written for picometre cells) to ~1e+12.  Nothing the property talks about depends on it (unit normals, index
+# conversions) or it scales along (Cartesian vectors); absolute tolerances hidden in the code show only away from 1
+POW2_SCALES = [2.0 ** k for k in (-40, -36, -33, -30, -27, -23, -20, -17, -13, -10, -7, -3, 3, 7, 10, 13, 17, 20, 23, 27, 30, 33, 36, 40)]
+POW10_SCALES = [10.0 ** k for k in range(-12, 13) if k != 0]
+N_LENGTHS = {'cubic': 1, 'hexagonal': 2, 'tetragonal': 2, 'rhombohedral': 1, 'orthorhombic': 3, 'monoclinic': 3, 'triclinic': 3}
+# below this scale two generic lattice parameters (>= 3 % apart, >= 2 units long) are no longer apart by more than the DEFAULT
+# absolute tolerance 1e-8 of the family predicates (candidate family:absolute-atol-small-units, see docs): the family clause
+# is then asked with the absolute tolerance scaled like the cell
+FAMILY_DEFAULT_TOL_FROM = 1e-6
+
+
+def _pick_scale(rng, pow2_only=False):
+    return rng.choice(POW2_SCALES if pow2_only else POW2_SCALES + POW10_SCALES)
+
+
+def _family_tol(scale):
+    """tolerances with which the family-identification clause is asked on a cell whose lengths were multiplied by `scale`:
+    None = the defaults; for small-number cells [rtol, atol] with the absolute part scaled like the lengths."""
+    return None if scale >= FAMILY_DEFAULT_TOL_FROM else [1e-5, 1e-8 * scale]
+
+
+def _scaled_args(fam, args, abc, scale):
+    n = N_LENGTHS[fam]
+    args = tuple(x * scale if i < n else x for i, x in enumerate(args))
+    abc = dict(abc, a=abc['a'] * scale, b=abc['b'] * scale, c=abc['c'] * scale)
+    return args, abc
+
+
 RHOMB_SPECIAL = [60.0, 109.47122063449069, 70.52877936550931, 30.0, 45.0, 100.0, 119.0, 89.0, 91.0, 33.5573097619207]
 
 CTOR = {'cubic': 'cubic', 'hexagonal': 'hexagonal', 'tetragonal': 'tetragonal', 'rhombohedral': 'trigonal',
@@ -459,8 +1006,10 @@ CTOR = {'cubic': 'cubic', 'hexagonal': 'hexagonal', 'tetragonal': 'tetragonal', 
 ORIENTS = ['std', 'rot', 'perm', 'refl']
 
 
-def _gen_cell(rng, kind=None, orient=None, origin=None):
+def _gen_cell(rng, kind=None, orient=None, origin=None, scale=None):
     """one cell of the property's quantifier as plain data:
+    scale  = overall length scale (all lattice parameters and the origin multiplied by it): None = 1 for half of the cells,
+             one of POW2_SCALES / POW10_SCALES (1e-12 ... 1e+12) for the other half
     kind   = one of FAMILIES (built by the family constructor with generic parameters) | 'dyadic' | 'float-triclinic'
     orient = 'std' (as the constructor gives it: LAMMPS orientation) | 'rot' (every cell vector rotated by an exact
              rational rotation, rounded to double) | 'perm' (proper signed permutation of the Cartesian axes: exact) |
@@ -472,15 +1021,18 @@ def _gen_cell(rng, kind=None, orient=None, origin=None):
     abc = None
     fam = None
     args = None
+    if scale is None:
+        scale = 1.0 if rng.random() < 0.5 else _pick_scale(rng, pow2_only=(kind == 'dyadic'))
     if kind == 'dyadic':
-        base = _dyadic_cell(rng).vects.tolist()
+        base = (_np().array(_dyadic_cell(rng).vects) * scale).tolist()      # scale a power of two: stays dyadic
         if orient == 'rot':
             orient = 'perm'             # stay on the dyadic grid
     elif kind == 'float-triclinic':
-        base = _float_cell(rng).vects.tolist()
+        base = _float_cell(rng, scale).vects.tolist()
     else:
         fam = kind
         args, abc = _ctor_args(rng, fam)
+        args, abc = _scaled_args(fam, args, abc, scale)
         base = getattr(am.Box, CTOR[fam])(*args).vects.tolist()
     prop, improp = _signed_perms()
     if orient == 'std':
@@ -491,9 +1043,11 @@ def _gen_cell(rng, kind=None, orient=None, origin=None):
         vects = _move(base, rng.choice(prop[1:]))
     else:
         vects = _move(base, rng.choice(improp))
-    return {'label': f'{kind}/{orient}', 'family': fam, 'args': None if args is None else list(args),
-            'vects': vects, 'origin': _gen_origin(rng) if origin is None else list(origin),
-            'abc': abc if orient == 'std' else None, 'hand': 'left' if orient == 'refl' else 'right'}
+    return {'label': f'{kind}/{orient}' + ('' if scale == 1.0 else f'/x{scale:g}'), 'family': fam,
+            'args': None if args is None else list(args),
+            'vects': vects, 'origin': _gen_origin(rng, scale) if origin is None else list(origin),
+            'abc': abc if orient == 'std' else None, 'hand': 'left' if orient == 'refl' else 'right',
+            'scale': scale, 'ftol': _family_tol(scale)}
 
 
 SETTERS = ['vects=', 'set', 'set_vectors', 'box_set', 'box_set_scale', 'model']
@@ -523,8 +1077,9 @@ def _near_cell(rng, cell):
         j = (i + 1 + rng.randrange(2)) % 3
         f = rng.choice([2.0 ** -9, -2.0 ** -7])
         v[i] = [x + f * y for x, y in zip(v[i], v[j])]
-    return {'label': cell['label'] + '/near', 'family': None, 'args': None, 'vects': v, 'origin': _gen_origin(rng),
-            'abc': None, 'hand': cell['hand']}
+    return {'label': cell['label'] + '/near', 'family': None, 'args': None, 'vects': v,
+            'origin': _gen_origin(rng, cell.get('scale', 1.0)), 'abc': None, 'hand': cell['hand'],
+            'scale': cell.get('scale', 1.0), 'ftol': cell.get('ftol')}
 
 
 def _gen_spec(rng, cell, history=None):
@@ -1053,7 +1608,7 @@ def correspond(ctx):
             B.add('plane_normal:miller', f'plane {hx} {atol_s} {Vs} %d %d %d' % t, r, e, _cmp_plane(Vfr),
                   {'cell': label, 'vects': V.tolist(), 'origin': box.origin.tolist(), 'hkl': list(t)})
             r, e = _call(miller.vector_crystal_to_cartesian, list(t), box)
-            B.add('vector_cart:miller', f'vc2c {hx} {atol_s} {Vs} %d %d %d' % t, r, e, _cmp_close(1e-14, 1e-13),
+            B.add('vector_cart:miller', f'vc2c {hx} {atol_s} {Vs} %d %d %d' % t, r, e, _cmp_close(1e-14, _vect_atol(V, 24.0)),
                   {'cell': label, 'vects': V.tolist(), 'origin': box.origin.tolist(), 'uvw': list(t)})
         _shape_variants(ctx, 'plane_crystal_to_cartesian', box.plane_crystal_to_cartesian, np.array(nz), normals,
                         extra={'cell': label})
@@ -1104,21 +1659,21 @@ def correspond(ctx):
         crows, carts = _vcall(box.vector_crystal_to_cartesian, S)
         for t, (r, e) in zip(sel[::ctx.n(7, 3)], crows[::ctx.n(7, 3)]):
             B.add('vector_cart', f'vc2c {hx} {atol_s} {Vs} %d %d %d' % t, r, e,
-                  _cmp_close(1e-14, 1e-13), {'cell': label, 'vects': V.tolist(), 'uvw': list(t)},
+                  _cmp_close(1e-14, _vect_atol(V, 24.0)), {'cell': label, 'vects': V.tolist(), 'uvw': list(t)},
                   sample={'op': 'vector_crystal_to_cartesian', 'cell': label, 'uvw': list(t)})
         # fractional three-index vectors (what fromstring('1/2 [1 1 0]') hands over): halves, thirds, quarters, sixths
         for _ in range(ctx.n(25, 200)):
             x = [rng.randint(-12, 12) / rng.choice([1, 2, 3, 4, 6]) for _ in range(3)]
             f = box.vector_crystal_to_cartesian if rng.random() < 0.5 else (lambda y: miller.vector_crystal_to_cartesian(y, box))
             r, e = _call(f, x)
-            B.add('vector_cart:frac', f'vc2c {hx} {atol_s} {Vs} ' + cm.frs(x), r, e, _cmp_close(1e-14, 1e-13),
+            B.add('vector_cart:frac', f'vc2c {hx} {atol_s} {Vs} ' + cm.frs(x), r, e, _cmp_close(1e-14, _vect_atol(V, 24.0)),
                   {'cell': label, 'vects': V.tolist(), 'uvw': x})
         # four-index input: hexagonal cells accept (guard), all others raise
         for q in rng.sample(quads_ok, ctx.n(60, 400)):
             for d in (0, 0, 0, 1):
                 qq = (q[0], q[1], q[2] + d, q[3])
                 r, e = _call(box.vector_crystal_to_cartesian, list(qq))
-                B.add('vector_cart:4', f'vc2c {hx} {atol_s} {Vs} %d %d %d %d' % qq, r, e, _cmp_close(1e-14, 1e-13),
+                B.add('vector_cart:4', f'vc2c {hx} {atol_s} {Vs} %d %d %d %d' % qq, r, e, _cmp_close(1e-14, _vect_atol(V, 24.0)),
                       {'cell': label, 'vects': V.tolist(), 'uvtw': list(qq)})
                 if (qq[0], qq[1], qq[3]) != (0, 0, 0):
                     r, e = _call(box.plane_crystal_to_cartesian, list(qq))
@@ -1128,7 +1683,7 @@ def correspond(ctx):
             for t in rng.sample(tri, ctx.n(100, 800)):
                 q = _ref_vector3to4(t)
                 r, e = _call(box.vector_crystal_to_cartesian, q)
-                B.add('vector_cart:4float', f'vc2c {hx} {atol_s} {Vs} ' + cm.frs(q), r, e, _cmp_close(1e-13, 1e-13),
+                B.add('vector_cart:4float', f'vc2c {hx} {atol_s} {Vs} ' + cm.frs(q), r, e, _cmp_close(1e-13, _vect_atol(V, 24.0)),
                       {'cell': label, 'uvtw': q.tolist()})
         # wrong number of indices
         for bad in ([1, 2], [1, 2, 3, 4, 5]):
@@ -1141,7 +1696,7 @@ def correspond(ctx):
         B.run()
 
     # ---- C'. thousands of planes in ONE call against the model's planearr (cells that are not diagonal) -------------
-    nondiag = [(label, box) for label, box in cells if np.linalg.det(box.vects) > 0 and np.count_nonzero(np.abs(box.vects) > 1e-9) > 3]
+    nondiag = [(label, box) for label, box in cells if np.linalg.det(box.vects) > 0 and np.count_nonzero(np.abs(box.vects) > 1e-9 * _amax(box.vects)) > 3]
     for it in range(ctx.n(1, 3)):
         label, box = rng.choice(nondiag)
         V = box.vects
@@ -1313,11 +1868,12 @@ def _corr_objects(ctx, B, rng, quads_ok, atol_s):
                 B.add('object:plane', f'bplane {atol_s} ' + ' '.join(map(str, t)), r, e, _cmp_plane(Vfr), dict(info, hkl=list(t)))
         for t in probes['vectors']:
             r, e = _call(box.vector_crystal_to_cartesian, list(t))
-            B.add('object:vector', f'bvc2c {atol_s} ' + ' '.join(map(str, t)), r, e, _cmp_close(1e-14, 1e-13),
+            B.add('object:vector', f'bvc2c {atol_s} ' + ' '.join(map(str, t)), r, e, _cmp_close(1e-14, _vect_atol(V, 24.0)),
                   dict(info, uvw=list(t)))
         sp = [cm.dyadic(rng, -2, 2, 3) for _ in range(3)]
         r, e = _call(box.position_relative_to_cartesian, sp)
-        B.add('object:position', 'bpos ' + cm.frs(sp), r, e, _cmp_close(1e-13, 1e-12), dict(info, relpos=sp))
+        B.add('object:position', 'bpos ' + cm.frs(sp), r, e,
+              _cmp_close(1e-13, 1e-13 * max(_amax(V), _amax(box.origin, 0.0))), dict(info, relpos=sp))
         if rng.random() < 0.7:
             r, e = _call(lambda: box.reciprocal_vects)
             B.add('object:reciprocal_vects', 'brecip', None if r is None else np.array(r, copy=True), e, _cmp_recip, info)
@@ -1543,7 +2099,7 @@ def _corr_memory(ctx, rng, atol_s):
                         model = cm.unfrs(cell.split(':', 1)[1]) if cell.split(':', 1)[1].strip() else []
                         # integers exact to well beyond this; thirds / Cartesian components: roundings of a short chain
                         # of conversions, each bounded by a few 2^-53 of the largest entry of the array
-                        scale = max([1.0] + [abs(v) for v in vals])
+                        scale = _amax(vals)
                         if len(model) != len(vals) or not cm.allclose(vals, model, 1e-13, 1e-13 * scale):
                             msg = (f'array a{addr} holds {vals}, in the model (calls touch no existing array, every result '
                                    f'is a new array) it holds {[float(x) for x in model]}')
@@ -1633,6 +2189,21 @@ def _fcross(a, b):
 
 def _fdot(a, b):
     return sum(x * y for x, y in zip(a, b))
+
+
+def _amax(x, default=1.0):
+    """largest magnitude in an array-like (the scale an absolute rounding tolerance is relative to); `default` when it is
+    empty or all zero.  NOT floored at 1: cells written in small-number units have Cartesian components of 1e-10."""
+    np = _np()
+    a = np.abs(np.asarray(x, dtype=float))
+    m = float(a.max()) if a.size else 0.0
+    return m if m > 0.0 and math.isfinite(m) else default
+
+
+def _vect_atol(V, idx_max=12.0):
+    """absolute rounding tolerance of a Cartesian vector idx . V (three products, two additions, indices up to idx_max):
+    relative to the largest cell-vector component, never to 1"""
+    return 5e-14 * _amax(V)          # >= 3 * 2^-53 * 3 * 24 * max|V| with room for the rounding of thirds; 1e-13 for max|V| = 2
 
 
 def _recip_dir(V, hkl):
@@ -1854,7 +2425,7 @@ def _o_same_direction(ctx, np, miller, hexbox, t, spec=None):
     want3 = [t[0] * a1[i] + t[1] * a2[i] + t[2] * c[i] for i in range(3)]
     qf = [_F(x) for x in q]
     want4 = [qf[0] * a1[i] + qf[1] * a2[i] + qf[2] * a3[i] + qf[3] * c[i] for i in range(3)]
-    scale = max(1.0, max(abs(float(x)) for x in want3))
+    scale = max(sum(abs(float(t[r] * V[r][i])) for r in range(3)) for i in range(3)) or _amax(hexbox.vects)
     if e is not None or not cm.allclose(cart3.tolist(), want3, 1e-13, 1e-13 * scale) \
             or not cm.allclose(cart4.tolist(), want4, 1e-12, 1e-12 * scale) \
             or not cm.allclose(cart4.tolist(), want3, 1e-12, 1e-12 * scale):
@@ -1873,7 +2444,7 @@ def _o_vector_cart(ctx, np, miller, box, label, uvw, spec=None):
     uvw = list(uvw)
     V = [[_F(x) for x in row] for row in box.vects]
     want = [sum(_F(uvw[i]) * V[i][j] for i in range(3)) for j in range(3)]
-    scale = max(1.0, max(abs(float(x)) for x in want))
+    scale = max(sum(abs(float(_F(uvw[i]) * V[i][j])) for i in range(3)) for j in range(3)) or _amax(box.vects)
     replay = {'op': 'vector_cart', 'uvw': uvw, 'vects': box.vects.tolist(), 'origin': box.origin.tolist(), 'cell': label}
     if spec is not None:
         replay['spec'] = spec
@@ -1981,7 +2552,7 @@ def _o_normal(ctx, np, box, label, hkl, rng, quad=None, spec=None, entry='Box', 
         cn = math.sqrt(float(_fdot(cart, cart)))
         d = sum(a * float(b) for a, b in zip(nl, cart))
         want = hand * z * float(det) / gn   # n . (uvw V) = (hu+kv+lw) / |G|,  |G| = gn / det
-        if abs(d - want) > (tol * 4) * cn + 1e-12:
+        if abs(d - want) > (tol * 4 + 1e-12) * cn:
             ctx.violate('plane_normal:zone', f'normal of {hkl} in a {label} cell: n.[uvw]={uvw} is {d}, zone law gives '
                         f'{want} (hu+kv+lw = {z})', dict(replay, uvw=uvw))
             return
@@ -2087,7 +2658,7 @@ def _o_shape(ctx, np, am, miller, name, rows, shape, extra):
     got = np.asarray(got)
     want = np.array(singles).reshape(tuple(shape) + singles[0].shape)
     same = got.shape == want.shape and (np.array_equal(got, want) if want.dtype.kind in 'iu' and got.dtype.kind in 'iu'
-                                        else np.allclose(got, want, rtol=1e-13, atol=1e-13))
+                                        else np.allclose(got, want, rtol=1e-13, atol=1e-13 * _amax(want)))
     if not same:
         ctx.violate(name + ':leading-shape', f'{name} on an array of shape {arr.shape}: {arr.tolist()} gives '
                     f'{got.tolist()}, index set by index set it gives {want.tolist()}', replay)
@@ -2414,20 +2985,23 @@ def _o_string(ctx, np, miller, s, frac=None, idx=None):
                     f'{[str(w) for w in want]}', replay)
 
 
-def _o_family(ctx, np, fam, args, box):
-    got, e = _call(box.identifyfamily)
+def _o_family(ctx, np, fam, args, box, ftol=None):
+    """`ftol` = [rtol, atol] the clause is asked with on small-number cells (None: the defaults, no argument passed)"""
+    kw = {} if not ftol else {'rtol': ftol[0], 'atol': ftol[1]}
+    replay = {'op': 'family', 'family': fam, 'args': list(args), 'ftol': ftol}
+    got, e = _call(box.identifyfamily, **kw)
     preds = {'cubic': 'iscubic', 'hexagonal': 'ishexagonal', 'tetragonal': 'istetragonal',
              'rhombohedral': 'isrhombohedral', 'orthorhombic': 'isorthorhombic', 'monoclinic': 'ismonoclinic',
              'triclinic': 'istriclinic'}
-    own, e2 = _call(getattr(box, preds[fam]))
+    own, e2 = _call(getattr(box, preds[fam]), **kw)
     if e is not None or e2 is not None or got != fam or not own:
         ctx.violate('family:' + fam, f'Box built as {fam}{tuple(args)} is identified as {got} (own predicate: {own}) '
-                    f'{e or ""}', {'op': 'family', 'family': fam, 'args': list(args)})
+                    f'{e or ""}' + (f' with {kw}' if kw else ''), replay)
     from atomman.tools import crystalsystem
-    got2, e3 = _call(crystalsystem.identifyfamily, box)
+    got2, e3 = _call(crystalsystem.identifyfamily, box, **kw)
     if e3 is not None or got2 != fam:
-        ctx.violate('family:crystalsystem:' + fam, f'crystalsystem.identifyfamily on a {fam}{tuple(args)} cell gives {got2}',
-                    {'op': 'family', 'family': fam, 'args': list(args)})
+        ctx.violate('family:crystalsystem:' + fam, f'crystalsystem.identifyfamily on a {fam}{tuple(args)} cell gives {got2}'
+                    + (f' with {kw}' if kw else ''), replay)
 
 
 FAM_PRED = {'cubic': 'iscubic', 'hexagonal': 'ishexagonal', 'tetragonal': 'istetragonal',
@@ -2449,7 +3023,8 @@ def _o_family_obj(ctx, np, cell, spec, box):
     if ef is not None:
         ctx.violate('family:object', f'Box(vects=box.vects, origin=box.origin) raised {ef} ({how})', replay)
         return
-    for tol in ((), ALT_TOL):
+    ftol = tuple(cell.get('ftol') or ())        # small-number cells: the family clause is asked with a scaled atol
+    for tol in ((), ALT_TOL) + ((ftol,) if ftol else ()):
         got, e = _call(box.identifyfamily, *tol)
         ref, e2 = _call(fresh.identifyfamily, *tol)
         bits, e3 = _call(lambda: [bool(getattr(box, p)(*tol)) for p in PREDS])
@@ -2467,11 +3042,12 @@ def _o_family_obj(ctx, np, cell, spec, box):
         if got is None and any(bits):
             ctx.violate('family:object-stale', f'identifyfamily{tol} = None but predicates {[int(b) for b in bits]} ({how})', replay)
             return
-        if fam is not None and not tol:
-            got2, e5 = _call(crystalsystem.identifyfamily, box)
-            own2, e6 = _call(getattr(crystalsystem, FAM_PRED[fam]), box)
+        if fam is not None and tol == ftol:
+            ckw = {} if not tol else {'rtol': tol[0], 'atol': tol[1]}
+            got2, e5 = _call(crystalsystem.identifyfamily, box, **ckw)
+            own2, e6 = _call(getattr(crystalsystem, FAM_PRED[fam]), box, **ckw)
             if got != fam or not bits[PREDS.index(FAM_PRED[fam])] or e5 or e6 or got2 != fam or not own2:
-                ctx.violate('family:' + fam, f'cell built as {fam}{tuple(cell.get("args") or ())} ({how}) is identified as {got!r} '
+                ctx.violate('family:' + fam, f'cell built as {fam}{tuple(cell.get("args") or ())} ({how}) is identified{tol or ""} as {got!r} '
                             f'(Box.{FAM_PRED[fam]}: {bits[PREDS.index(FAM_PRED[fam])]}; crystalsystem: {got2!r}, {own2})', replay)
                 return
 
@@ -2705,7 +3281,8 @@ def _same_values(np, a, b):
         return False
     if a.dtype.kind in 'iub' and b.dtype.kind in 'iub':
         return bool(np.array_equal(a, b))
-    return bool(np.allclose(a.astype(float), b.astype(float), rtol=1e-13, atol=1e-13, equal_nan=True))
+    return bool(np.allclose(a.astype(float), b.astype(float), rtol=1e-13, atol=1e-13 * _amax(np.nan_to_num(b.astype(float))),
+                            equal_nan=True))
 
 
 def _o_pure(ctx, np, am, miller, case):
@@ -3074,7 +3651,7 @@ def _o_dtype(ctx, np, am, miller, case):
     if same and name == 'reduce_indices':
         same = got.dtype.kind in 'iu' and [int(v) for v in got.ravel().tolist()] == [int(v) for v in want.ravel().tolist()]
     elif same:
-        scale = max(1.0, float(np.max(np.abs(want.astype(float)))) if want.size else 1.0)
+        scale = _amax(want)
         same = bool(np.allclose(got.astype(float), want.astype(float), rtol=1e-13, atol=1e-13 * scale))
     if not same:
         ctx.violate(name + ':input-dtype', f'{what} = {got.tolist()}; the same numbers as Python integers give '
@@ -3198,7 +3775,7 @@ def _o_big(ctx, np, am, miller, case):
             return True
         if a.dtype.kind in 'iu' and b.dtype.kind in 'iu':
             return not np.array_equal(a, b)
-        sc = max(1.0, float(np.max(np.abs(b))) if b.size else 1.0)
+        sc = _amax(b)
         return not np.allclose(a.astype(float), b.astype(float), rtol=1e-13, atol=1e-13 * sc)
     for j in sample:
         one, e1 = _call(f1, arr[j].tolist())
@@ -3245,7 +3822,7 @@ def _big_cases(rng, ctx, cells, broken):
     out = []
     full = ctx.thorough or broken
     nondiag = [c for c in cells if c[3]['hand'] == 'right' and
-               sum(1 for r in c[1].vects.tolist() for v in r if abs(v) > 1e-9) > 3]
+               sum(1 for r in c[1].vects.tolist() for v in r if abs(v) > 1e-9 * _amax(c[1].vects)) > 3]
     hexs = [c for c in nondiag if c[0].startswith('hexagonal')]
 
     def ex_of(c):
@@ -3288,7 +3865,10 @@ def _big_cases(rng, ctx, cells, broken):
         plan.append((name, k, rng.choice(nondiag), rng.choice(mid), True))
     # one call with MORE THAN 100000 planes per run (the clean code takes ~0.2 ms per plane: ~20 s), on a cell whose reciprocal
     # matrix is not symmetric; thorough: also 2^16 + 1, 2^18 + 1 and 300001 planes
-    skew = [c for c in nondiag if not _np().allclose(_np().linalg.inv(c[1].vects), _np().linalg.inv(c[1].vects).T, rtol=1e-3, atol=1e-6)]
+    def _rel_inv(c):
+        iv = _np().linalg.inv(c[1].vects / _amax(c[1].vects))
+        return iv / _amax(iv)
+    skew = [c for c in nondiag if not _np().allclose(_rel_inv(c), _rel_inv(c).T, rtol=1e-3, atol=1e-6)]
     plan.append((rng.choice(planes)[0], 3, rng.choice(skew or nondiag), rng.choice([100001, 100003, 102401, 110001, 131073]), False))
     if ctx.thorough:
         plan.append((rng.choice(planes)[0], 3, rng.choice(skew or nondiag), rng.choice([65537, 70001]), False))
@@ -3312,6 +3892,158 @@ def _big_cases(rng, ctx, cells, broken):
         j = rng.choice([n - 1, n // 2, 4096, rng.randrange(n)]) if kind == 'half' else rng.choice([n - 1, 4096, 3000 + rng.randrange(1000)])
         out.append({'fn': rng.choice(planes)[0], 'n': n, 'k': 3, 'seed': rng.getrandbits(32), 'dtype': 'int64', 'extra': ex_of(c),
                     'bad': [j, kind]})
+    return out
+
+
+# ---- the cell's overall length scale ------------------------------------------------------------------------------------
+def _scale_box(am, np, case, s, how):
+    """the cell of `case` with every length multiplied by s: through the family constructor (scaled lattice parameters) or as
+    Box(vects = s * vects, origin = s * origin)"""
+    if how == 'ctor':
+        n = N_LENGTHS[case['family']]
+        args = [x * s if i < n else x for i, x in enumerate(case['args'])]
+        return getattr(am.Box, CTOR[case['family']])(*args)
+    return am.Box(vects=(np.array(case['vects'], dtype=float) * s).tolist(), origin=(np.array(case['origin'], dtype=float) * s).tolist())
+
+
+def _o_scale_sweep(ctx, np, am, miller, case):
+    """ONE lattice written in every length unit: the cell of `case` (lattice parameters of a few angstrom-sized numbers) with
+    all lengths multiplied by each s of case['scales'] (exact powers of two and of ten, 1e-12 ... 1e+12).  At every scale
+      * each plane normal is the unit vector along h a* + k b* + l c* of THAT cell (exact oracle), three- and (hexagonal
+        cells) four-index form, array call and single calls, both entry points            -> plane_normal:reciprocal
+      * and is the normal found at scale 1: a unit normal does not depend on the overall scale of the cell
+                                                                                           -> plane_normal:scale
+      * each Cartesian vector is u a + v b + w c of that cell (exact), hence s times the vector at scale 1
+                                                                                           -> vector_cart:value, :scale
+      * four indices are accepted on hexagonal cells at every scale                         -> *:raises
+      * a family cell is identified as its family (default tolerances from 1e-6 up, absolute tolerance scaled like the cell
+        below: candidate family:absolute-atol-small-units)                                  -> family:<fam>"""
+    from atomman.tools import crystalsystem
+    planes = [[int(v) for v in r] for r in case['planes']]
+    vectors = [[float(v) for v in r] for r in case['vectors']]
+    fam, label, held, entry = case.get('family'), case['label'], case.get('held'), case.get('entry', 'Box')
+    ishex = fam == 'hexagonal'
+
+    def normals(box, rows):
+        arr = np.array(rows, dtype=np.dtype(held) if held else np.int64)
+        arg = arr if held else arr.tolist()
+        if entry == 'Box':
+            return _call(box.plane_crystal_to_cartesian, arg)
+        return _call(miller.plane_crystal_to_cartesian, arg, box)
+
+    ref = {}
+    for si, s in enumerate([1.0] + [float(x) for x in case['scales']]):
+        how = 'ctor' if (fam and case['orient'] == 'std' and si % 2 == 1) else 'vects'
+        replay = {'op': 'scale_sweep', 'case': dict(case, scales=[s])}
+        box, e = _call(_scale_box, am, np, case, s, how)
+        where = f'{label} cell with all lengths x {s:g} (' + ('family constructor' if how == 'ctor' else 'Box(vects=...)') + ')'
+        if e is not None:
+            ctx.violate('object:setter-raises', f'building the {where} raised {e}', replay)
+            continue
+        where += f', vects {box.vects.tolist()}'
+        V = [[_F(x) for x in row] for row in box.vects]
+        # -- plane normals
+        forms = [('hkl', planes)] + ([('hkil', [[r[0], r[1], -(r[0] + r[1]), r[2]] for r in planes])] if ishex else [])
+        for form, rows in forms:
+            got, e = normals(box, rows)
+            if e is not None or np.asarray(got).shape != (len(rows), 3):
+                ctx.violate('plane_normal:raises', f'plane_crystal_to_cartesian({rows}) ({entry} entry point) on the {where} '
+                            f'gives {e or np.asarray(got).shape}', replay)
+                continue
+            got = np.asarray(got, dtype=float)
+            for j, hkl in enumerate(planes):
+                ex = _normal_expect(V, hkl)
+                if ex is None:
+                    continue
+                unit, tol, det, _gn = ex
+                nl = got[j].tolist()
+                if not all(abs(a - b) <= tol for a, b in zip(nl, unit)):
+                    ctx.violate('plane_normal:reciprocal', f'normal of {rows[j]} on the {where} is {nl}; the unit reciprocal-lattice '
+                                f'direction of {hkl} is {unit}', dict(replay, row=j))
+                    break
+                if s == 1.0:
+                    ref[(form, j)] = (nl, tol)
+                elif (form, j) in ref:
+                    n1, t1 = ref[(form, j)]
+                    if not all(abs(a - b) <= tol + t1 for a, b in zip(nl, n1)):
+                        ctx.violate('plane_normal:scale', f'normal of {rows[j]} on the {where} is {nl}; on the same lattice at scale 1 '
+                                    f'it is {n1}: a unit normal does not depend on the unit the lengths are written in',
+                                    dict(replay, row=j))
+                        break
+            # the first planes singly, through the other entry point
+            for j in range(min(2, len(rows))):
+                one, e1 = (_call(miller.plane_crystal_to_cartesian, rows[j], box) if entry == 'Box'
+                           else _call(box.plane_crystal_to_cartesian, rows[j]))
+                if e1 is not None or not np.allclose(np.asarray(one, dtype=float), got[j], rtol=0, atol=1e-13):
+                    ctx.violate('plane_normal:reciprocal', f'normal of {rows[j]} given alone on the {where} is '
+                                f'{e1 or np.asarray(one).tolist()}, in the array call {got[j].tolist()}', dict(replay, row=j))
+                    break
+        # -- Cartesian vectors
+        vforms = [('uvw', vectors)] + ([('uvtw', [_ref_vector3to4(r).tolist() for r in vectors])] if ishex else [])
+        for form, rows in vforms:
+            for nm, f in (('Box.vector_crystal_to_cartesian', box.vector_crystal_to_cartesian),
+                          ('miller.vector_crystal_to_cartesian', lambda x: miller.vector_crystal_to_cartesian(x, box))):
+                got, e = _call(f, np.array(rows))
+                if e is not None or np.asarray(got).shape != (len(rows), 3):
+                    ctx.violate('vector_cart:raises', f'{nm}({rows}) on the {where} gives {e or np.asarray(got).shape}', replay)
+                    break
+                got = np.asarray(got, dtype=float)
+                bad = False
+                for j, uvw in enumerate(vectors):
+                    want = [sum(_F(uvw[i]) * V[i][c] for i in range(3)) for c in range(3)]
+                    sc = max(sum(abs(float(_F(uvw[i]) * V[i][c])) for i in range(3)) for c in range(3)) or _amax(box.vects)
+                    rt = 1e-14 if form == 'uvw' else 1e-12
+                    if not cm.allclose(got[j].tolist(), want, rt, rt * sc):
+                        ctx.violate('vector_cart:value', f'{nm}({rows[j]}) on the {where} is {got[j].tolist()}, u a + v b + w c is '
+                                    f'{[float(x) for x in want]}', dict(replay, row=j))
+                        bad = True
+                        break
+                    if s == 1.0:
+                        ref[(form, nm, j)] = got[j].tolist()
+                    elif (form, nm, j) in ref and how == 'vects':
+                        v1 = ref[(form, nm, j)]
+                        if not all(abs(a - s * b) <= 1e-12 * sc for a, b in zip(got[j].tolist(), v1)):
+                            ctx.violate('vector_cart:scale', f'{nm}({rows[j]}) on the {where} is {got[j].tolist()}; at scale 1 it is '
+                                        f'{v1}: not {s:g} times that', dict(replay, row=j))
+                            bad = True
+                            break
+                if bad:
+                    break
+        # -- family
+        if fam:
+            ft = _family_tol(s)
+            kw = {} if not ft else {'rtol': ft[0], 'atol': ft[1]}
+            res, e = _call(lambda: (box.identifyfamily(**kw), bool(getattr(box, FAM_PRED[fam])(**kw)),
+                                    crystalsystem.identifyfamily(box, **kw), bool(getattr(crystalsystem, FAM_PRED[fam])(box, **kw))))
+            if e is not None or res != (fam, True, fam, True):
+                ctx.violate('family:' + fam, f'the {where}, built as {fam}{tuple(case.get("args") or ())} x {s:g}: identifyfamily'
+                            f'({kw or ""}), Box.{FAM_PRED[fam]}, crystalsystem.identifyfamily, crystalsystem.{FAM_PRED[fam]} = '
+                            f'{e or res}', replay)
+
+
+def _scale_cases(rng, ctx, broken):
+    """every family + float triclinic + dyadic cell, each in one orientation per quick run (as built / rotated / axes
+    permuted; all three when thorough), EVERY scale of POW2_SCALES + POW10_SCALES; planes: one per zero pattern (the seven
+    branches of the code) + larger indices; held as list / int64 / int32 / int16; both entry points."""
+    out = []
+    kinds = FAMILIES + ['float-triclinic', 'dyadic']
+    orients = ['std', 'rot', 'perm']
+    for ki, kind in enumerate(kinds):
+        for oi in (range(3) if (ctx.thorough or broken) else [(ki + ctx.seed) % 3]):
+            cell = _gen_cell(rng, kind, orients[oi], scale=1.0)
+            planes = [_pattern_row(rng, p_, rng.choice([6, 6, 40])) for p_ in PATTERNS]
+            planes += [[rng.randint(-9, 9) or 1 for _ in range(3)] for _ in range(2)]
+            planes += [list(_trap_triples(rng, 1)[0])]
+            rng.shuffle(planes)
+            vectors = [[float(rng.randint(-6, 6)) for _ in range(3)] for _ in range(3)]
+            vectors.append([rng.randint(-12, 12) / rng.choice([2, 3, 4]) for _ in range(3)])
+            vectors = [v for v in vectors if any(v)] or [[1.0, 0.0, 0.0]]
+            big = max(abs(x) for r in planes for x in r)
+            held = rng.choice([None, 'int64', 'int32'] + (['int16'] if big < 2 ** 15 else []))
+            scales = POW10_SCALES + POW2_SCALES if kind != 'dyadic' else POW2_SCALES
+            out.append({'label': cell['label'], 'kind': kind, 'orient': cell['label'].split('/')[1], 'family': cell['family'],
+                        'args': cell['args'], 'vects': cell['vects'], 'origin': cell['origin'], 'planes': planes,
+                        'vectors': vectors, 'scales': list(scales), 'held': held, 'entry': rng.choice(['Box', 'miller'])})
     return out
 
 
@@ -3399,7 +4131,7 @@ def search(ctx, broken):
     #    dyadic + float triclinic, non-zero origins, fresh and re-used objects, both entry points;
     #    exhaustive triples on the first cells
     nz = [t for t in tri if t != (0, 0, 0)]
-    descr = [_gen_cell(rng, fam, 'std') for fam in FAMILIES]
+    descr = [_gen_cell(rng, fam, 'std', scale=(1.0 if fi < 4 else None)) for fi, fam in enumerate(FAMILIES)]
     for fam in FAMILIES:
         descr += [_gen_cell(rng, fam, o) for o in ('rot', 'perm', 'refl')]
     for _ in range(ctx.n(1, 3) * mult):
@@ -3494,6 +4226,13 @@ def search(ctx, broken):
                                          'four': four, 'spec': spec, 'cell': label},
                    _o_normal_rows, ctx, np, box, label, rows, shape, held, e2, four, spec)
     ctx.extra['oracle_cells'] = [f'{c[0]}:{_hist(c[2])}' for c in cells]
+    # 3a. the same lattice written in every length unit (1e-12 ... 1e+12, exact powers of two and of ten): unit normals do not
+    #     move, Cartesian vectors scale along, families are recognised
+    for case in _scale_cases(rng, ctx, broken):
+        ctx.stats.case('oracle:scale-sweep', (case['label'], str(case['planes']), case['held'], case['entry'], len(case['scales'])))
+        _guard(ctx, 'scale', {'op': 'scale_sweep', 'case': case}, _o_scale_sweep, ctx, np, am, miller, case)
+    ctx.extra['scales'] = {'pow2': [math.log2(x) for x in POW2_SCALES], 'pow10': [round(math.log10(x)) for x in POW10_SCALES],
+                           'cells_scaled': sum(1 for c in cells if c[3].get('scale', 1.0) != 1.0)}
     r, e = _call(cells[0][1].plane_crystal_to_cartesian, [0, 0, 0])
     if e != 'err:value':
         ctx.violate('plane_normal:zero', 'the zero plane index vector is not rejected', {'op': 'normal-zero'})
@@ -3663,10 +4402,13 @@ def search(ctx, broken):
         _guard(ctx, case['fn'] + ':pure', {'op': 'pure', 'case': case}, _o_pure, ctx, np, am, miller, case)
     ctx.extra['pure_cases'] = pure_seen
     # 7. families: as the constructors give them ...
-    for _ in range(ctx.n(25, 400) * mult):
-        for fam, args, box in _family_cells(rng):
+    for it in range(ctx.n(25, 400) * mult):
+        sc = 1.0 if it % 2 == 0 else _pick_scale(rng)       # every other set of constructor cells in another length unit
+        ft = _family_tol(sc)
+        for fam, args, box in _family_cells(rng, sc):
             ctx.stats.case('oracle:family', (fam, args))
-            _guard(ctx, 'family:' + fam, {'op': 'family', 'family': fam, 'args': list(args)}, _o_family, ctx, np, fam, args, box)
+            _guard(ctx, 'family:' + fam, {'op': 'family', 'family': fam, 'args': list(args), 'ftol': ft}, _o_family, ctx, np, fam,
+                   args, box, ft)
     #    ... and in every orientation, at any origin, in fresh objects and in objects that held (and were asked about)
     #    other cells before: query -> setter -> query, compared with the family built, a fresh Box, the predicates
     for it in range(ctx.n(260, 3000) * mult):
@@ -3719,6 +4461,8 @@ def _replay(ctx, payload):
         _o_family_obj(ctx, np, r['cell'], r['spec'], _build(r['spec'], None))
     elif op == 'family_boundary':
         _o_family_boundary(ctx, np, r['case'])
+    elif op == 'scale_sweep':
+        _o_scale_sweep(ctx, np, am, miller, r['case'])
     elif op == 'params':
         _o_params(ctx, np, _build(_spec_of(r), None), r.get('cell', '?'), r.get('spec'))
     elif op == 'pure':
@@ -3760,7 +4504,7 @@ def _replay(ctx, payload):
         ctor = {'cubic': am.Box.cubic, 'hexagonal': am.Box.hexagonal, 'tetragonal': am.Box.tetragonal,
                 'rhombohedral': am.Box.trigonal, 'orthorhombic': am.Box.orthorhombic,
                 'monoclinic': am.Box.monoclinic, 'triclinic': am.Box.triclinic}[fam]
-        _o_family(ctx, np, fam, args, ctor(*args))
+        _o_family(ctx, np, fam, args, ctor(*args), r.get('ftol'))
     else:
         if ctx.driver is not None:
             correspond(ctx)
